@@ -560,8 +560,8 @@ def run(tier, seed, workers):
         'exhaustive': True,
         'samples': samples,
         'failures_total': total,
-        'failure_classes': classes,
-        'smallest_per_class': firsts,
+        'failures_by_class': classes,
+        'minimal_input_per_class': firsts,
         'failures': fl,
         'time_s': round(T.s(), 1),
     })
